@@ -42,6 +42,18 @@ use crate::Mer;
 use crate::MerIter;
 use crate::Vmer;
 
+// With the verif_hooks feature the AVX2 detection can be switched off per thread,
+// so that the scalar fallback of `from_acgt_bytes` can be driven on AVX2 hardware.
+#[cfg(all(
+    feature = "verif_hooks",
+    any(target_arch = "x86", target_arch = "x86_64")
+))]
+macro_rules! is_x86_feature_detected {
+    ($f:tt) => {
+        (!crate::verif_hooks::force_scalar() && std::is_x86_feature_detected!($f))
+    };
+}
+
 const BLOCK_BITS: usize = 64;
 const WIDTH: usize = 2;
 
